@@ -14,7 +14,7 @@ Two services, one line each:
   vectors the real code produces under the deterministic scheduler (bounded exploration = validation of the
   model, never a substitute for the theorems).
 
-`<cfg>` = three bits `lockCrash pickleEscapes oversizeReplyDropped`; `<attrs>` = `r:place:argsOk:resOk:resBig:crash,…`.
+`<cfg>` = three bits `lockCrash pickleEscapes oversizeReplyDropped` + optionally a fourth `sendLocked` (explore only); `<attrs>` = `r:place:argsOk:resOk:resBig:crash,…`.
 -/
 open QmiModel.Rpc
 
@@ -48,8 +48,15 @@ def parseBool (s : String) : Bool := s == "1"
 
 def parseCfg (s : String) : Cfg :=
   match s.toList with
-  | [a, b, c] => ⟨a == '1', b == '1', c == '1'⟩
+  | a :: b :: c :: _ => ⟨a == '1', b == '1', c == '1'⟩
   | _ => Cfg.pinned
+
+/-- fourth configuration character: the router's send/stop lock is present (`ReachL`): `stopA` waits while a sender
+    is between its check and its hand-over -/
+def parseLocked (s : String) : Bool :=
+  match s.toList with
+  | [_, _, _, d] => d == '1'
+  | _ => false
 
 def parseAttrs (s : String) : ReqId → Attr :=
   let ents := (s.splitOn ",").filterMap fun e =>
@@ -94,12 +101,12 @@ def resVec (s : State) (n : Nat) : String :=
   String.join ((List.range n).map fun r => outChar (s.result r))
 
 /-- one thread step: `none` = blocked/disabled -/
-def tstep (cfg : Cfg) (attr : ReqId → Attr) (s : State) : TStep → Option State
+def tstep (cfg : Cfg) (locked : Bool) (attr : ReqId → Attr) (s : State) : TStep → Option State
   | .call r => match step cfg attr s (.issue r) with
     | some s1 => step cfg attr s1 (.send r)
     | none => none
   | .wait r => if (s.result r).isSome then some s else none
-  | .act a => step cfg attr s a
+  | .act a => if locked && a == .stopA && !s.checked.isEmpty then none else step cfg attr s a
   | .joinW => match s.phase with
     | .drained => some s
     | .crashed => some s
@@ -124,7 +131,7 @@ def finishAct (outs : List Outcome) (s : State) : Act :=
   | .busy r => .finish (outs.getD r .value)
   | _ => .finish .value
 
-partial def explore (cfg : Cfg) (attr : ReqId → Attr) (n : Nat) (outs : List Outcome)
+partial def explore (cfg : Cfg) (locked : Bool) (attr : ReqId → Attr) (n : Nat) (outs : List Outcome)
     (todo : List (State × List (List TStep))) (seen : Std.HashSet Key) (term : Std.HashSet String)
     (budget : Nat) : Std.HashSet String × Nat :=
   match todo with
@@ -132,7 +139,7 @@ partial def explore (cfg : Cfg) (attr : ReqId → Attr) (n : Nat) (outs : List O
   | (s, progs) :: rest =>
     if budget == 0 then (term.insert "BUDGET", seen.size) else
     let k := mkKey s n progs
-    if seen.contains k then explore cfg attr n outs rest seen term budget else
+    if seen.contains k then explore cfg locked attr n outs rest seen term budget else
     let seen := seen.insert k
     -- successors by internal actions
     let acts := (internalActs s).map (fun a => match a with | .finish _ => finishAct outs s | a => a)
@@ -141,13 +148,13 @@ partial def explore (cfg : Cfg) (attr : ReqId → Attr) (n : Nat) (outs : List O
     let idxs := List.range progs.length
     let succT := idxs.filterMap fun i =>
       match progs[i]? with
-      | some (t :: ts) => (tstep cfg attr s t).map (fun s' => (s', progs.set i ts))
+      | some (t :: ts) => (tstep cfg locked attr s t).map (fun s' => (s', progs.set i ts))
       | _ => none
     let succ := succI ++ succT
     if succ.isEmpty then
-      explore cfg attr n outs rest seen (term.insert (resVec s n)) (budget - 1)
+      explore cfg locked attr n outs rest seen (term.insert (resVec s n)) (budget - 1)
     else
-      explore cfg attr n outs (succ ++ rest) seen term (budget - 1)
+      explore cfg locked attr n outs (succ ++ rest) seen term (budget - 1)
 
 def insertSorted (x : String) : List String → List String
   | [] => [x]
@@ -176,7 +183,7 @@ def stepLine (_ : Unit) (line : String) : Unit × String :=
     let progsO := (thrS.splitOn "|").map fun t => (t.splitOn ",").filter (· ≠ "") |>.map parseTStep
     if progsO.any (fun p => p.any Option.isNone) then ((), "bad-op") else
     let progs := progsO.map (fun p => p.filterMap id)
-    let (term, states) := explore cfg attr n outs [(init, progs)] {} {} 2000000
+    let (term, states) := explore cfg (parseLocked cfgS) attr n outs [(init, progs)] {} {} 2000000
     ((), s!"{String.intercalate ";" (sortStrings term.toList)} states={states}")
   | _ => ((), "bad-op")
 where
